@@ -47,7 +47,12 @@ type Finding struct {
 	Status       string `json:"status"` // open | fixed
 	Commit       string `json:"commit,omitempty"`
 	Note         string `json:"note,omitempty"`
-	re           *regexp.Regexp
+	// Cases: how many enumerated cases fail with this finding on the unchanged tree, per tier (written by
+	// bin/refresh-known-cases, never at run time). A run in which MORE cases fail under the finding's signature than
+	// listed is a violation: a different defect hides behind the same signature (failure minimisation can lead a new
+	// failing case to the smallest input of a listed one).
+	Cases map[string]int `json:"cases,omitempty"`
+	re    *regexp.Regexp
 }
 
 // LoadFindings reads the committed known-findings file.
@@ -833,6 +838,39 @@ func Run(p *Prop, tier string, seed int, self string) int {
 		fmt.Printf("VIOLATION property=%s replay=%s\n", p.ID, path)
 		fmt.Printf("  signature: %s (%d cases, reproduced %d/%d in fresh processes)\n  first case: %s\n  detail: %s\n",
 			st.Sig, st.Count, st.Confirmed, st.Attempts, trunc(first(st.Specs), 600), trunc(st.Detail, 600))
+	}
+	caseCounts := map[string]int{}
+	for _, f := range open {
+		n, has := knownSeen[f]
+		if !has {
+			continue
+		}
+		caseCounts[f.Signature+f.SignatureRe] = n
+		listed, guarded := f.Cases[r.Tier]
+		if !guarded || n <= listed {
+			continue
+		}
+		// more failing cases than the listed finding accounts for
+		var st *sigTotal
+		for _, cand := range all {
+			if matchFinding(open, cand.Sig) == f && (st == nil || cand.Count > st.Count) {
+				st = cand
+			}
+		}
+		if st == nil {
+			continue
+		}
+		violations++
+		exit = 1
+		extra := *st
+		extra.Sig = fmt.Sprintf("%s [%d failing cases where the listed finding accounts for %d: another violation behind the same signature]", f.Signature+f.SignatureRe, n, listed)
+		path := r.writeReplay(&extra)
+		fmt.Printf("VIOLATION property=%s replay=%s\n", p.ID, path)
+		fmt.Printf("  signature: %s\n  first case: %s\n  detail: %s\n", extra.Sig, trunc(first(st.Specs), 600), trunc(st.Detail, 600))
+	}
+	if data, err := json.MarshalIndent(caseCounts, "", " "); err == nil {
+		// development aid: the counts bin/refresh-known-cases copies into known-findings.jsonl (from the unchanged tree only)
+		_ = os.WriteFile(filepath.Join(OutDir, "replays", fmt.Sprintf("known-cases-%s-%s.json", p.ID, r.Tier)), data, 0o644)
 	}
 	for _, f := range open {
 		if n, has := knownSeen[f]; has {
